@@ -5,6 +5,7 @@ import (
 	"fmt"
 	"go/types"
 	"math"
+	"reflect"
 	"regexp"
 	"sort"
 	"strconv"
@@ -567,6 +568,8 @@ func (m *mach) builtinModel(fn *ssa.Function, args []mv) (mv, bool) {
 				return mNil, true
 			}
 		}
+	case name == "reflect.ValueOf" || strings.HasPrefix(name, "reflect.Value."):
+		return m.reflectModel(fn.Name(), args)
 	case name == "errors.New" || name == "fmt.Errorf":
 		es := &mSym{name: "error(" + mRender(args[0]) + ")", nonNil: true}
 		if name == "errors.New" {
@@ -1499,4 +1502,202 @@ func (m *mach) errorsAs(err, target mv, depth int) (as bool, known bool) {
 		}
 	}
 	return false, true
+}
+
+// ---- reflect: the read-only view of a value of the model -----------------------------------------------
+// reflect.ValueOf(x) is a symbol that remembers the interface value it describes (dynamic type and payload);
+// Kind / IsValid / IsNil / Interface / Type / Len / Index / Elem / Int / Uint / Float / Bool / String read it (reflect.Type:
+// Kind / String / Elem / Comparable, in mach.go). Anything else on a reflect.Value ends the run as undecided.
+
+func reflectKind(t types.Type) (int64, bool) {
+	switch u := t.Underlying().(type) {
+	case *types.Basic:
+		if k, ok := map[types.BasicKind]reflect.Kind{types.Bool: reflect.Bool, types.Int: reflect.Int, types.Int8: reflect.Int8, types.Int16: reflect.Int16, types.Int32: reflect.Int32, types.Int64: reflect.Int64,
+			types.Uint: reflect.Uint, types.Uint8: reflect.Uint8, types.Uint16: reflect.Uint16, types.Uint32: reflect.Uint32, types.Uint64: reflect.Uint64, types.Uintptr: reflect.Uintptr,
+			types.Float32: reflect.Float32, types.Float64: reflect.Float64, types.Complex64: reflect.Complex64, types.Complex128: reflect.Complex128, types.String: reflect.String,
+			types.UnsafePointer: reflect.UnsafePointer}[u.Kind()]; ok {
+			return int64(k), true
+		}
+	case *types.Array:
+		return int64(reflect.Array), true
+	case *types.Chan:
+		return int64(reflect.Chan), true
+	case *types.Signature:
+		return int64(reflect.Func), true
+	case *types.Interface:
+		return int64(reflect.Interface), true
+	case *types.Map:
+		return int64(reflect.Map), true
+	case *types.Pointer:
+		return int64(reflect.Pointer), true
+	case *types.Slice:
+		return int64(reflect.Slice), true
+	case *types.Struct:
+		return int64(reflect.Struct), true
+	}
+	return 0, false
+}
+
+// reflectElem: the element type of an array, channel, map, pointer or slice type (nil for other types).
+func reflectElem(t types.Type) types.Type {
+	switch u := t.Underlying().(type) {
+	case *types.Array:
+		return u.Elem()
+	case *types.Chan:
+		return u.Elem()
+	case *types.Map:
+		return u.Elem()
+	case *types.Pointer:
+		return u.Elem()
+	case *types.Slice:
+		return u.Elem()
+	}
+	return nil
+}
+
+// reflectValue: the reflect.Value of v seen at static type t (an interface-typed slot keeps its interface value).
+func reflectValue(t types.Type, v mv) *mSym {
+	return &mSym{name: "reflect.ValueOf(" + mRender(v) + ")", nonNil: true, rt: t, rv: v}
+}
+
+func (m *mach) reflectModel(method string, args []mv) (mv, bool) {
+	if method == "ValueOf" {
+		switch a := args[0].(type) {
+		case mIface:
+			return &mSym{name: "reflect.ValueOf(" + mRender(a.v) + ")", nonNil: true, rt: a.t, rv: a.v}, true
+		case mNilT:
+			return &mSym{name: "reflect.ValueOf(nil)", nonNil: true, rv: mNil}, true
+		}
+		return nil, false
+	}
+	v, ok := args[0].(*mSym)
+	if !ok || v.rv == nil {
+		m.abort("reflect.Value.%s on a value that did not come from reflect.ValueOf is outside the machine's model of package reflect", method)
+	}
+	kind := int64(reflect.Invalid)
+	if v.rt != nil {
+		if kind, ok = reflectKind(v.rt); !ok {
+			m.abort("reflect.Value.%s on a value of type %s is outside the machine's model of package reflect", method, v.rt)
+		}
+	}
+	switch method {
+	case "Kind":
+		return kind, true
+	case "IsValid":
+		return v.rt != nil, true
+	case "Interface":
+		if v.rt != nil {
+			if _, isIface := v.rt.Underlying().(*types.Interface); isIface {
+				return v.rv, true // an interface-typed slot: the interface value it holds (or nil)
+			}
+			return mIface{t: v.rt, v: v.rv}, true
+		}
+	case "Index":
+		// element i of a slice, array or string of the model
+		if i, ok := args[1].(int64); ok && v.rt != nil {
+			var elems []mv
+			switch x := v.rv.(type) {
+			case mSlice:
+				elems = x.arr
+			case mArray:
+				elems = x
+			case mNilT:
+			case string:
+				if i >= 0 && i < int64(len(x)) {
+					return reflectValue(types.Typ[types.Uint8], int64(x[i])), true
+				}
+			default:
+				m.abort("reflect.Value.Index of %s is outside the model", mRender(v.rv))
+			}
+			if i < 0 || i >= int64(len(elems)) {
+				m.throw(m.sym("reflect: slice index out of range", nil), "reflect: slice index out of range")
+			}
+			if et := reflectElem(v.rt); et != nil {
+				return reflectValue(et, elems[i]), true
+			}
+		}
+	case "Elem":
+		// what an interface value holds, what a pointer points to
+		switch reflect.Kind(kind) {
+		case reflect.Interface:
+			switch x := v.rv.(type) {
+			case mIface:
+				return reflectValue(x.t, x.v), true
+			case mNilT:
+				return &mSym{name: "reflect.ValueOf(nil)", nonNil: true, rv: mNil}, true
+			}
+		case reflect.Pointer:
+			switch x := v.rv.(type) {
+			case *mv:
+				if x != nil {
+					return reflectValue(reflectElem(v.rt), *x), true
+				}
+				return &mSym{name: "reflect.ValueOf(nil)", nonNil: true, rv: mNil}, true
+			case mNilT:
+				return &mSym{name: "reflect.ValueOf(nil)", nonNil: true, rv: mNil}, true
+			}
+		}
+	case "Type":
+		if v.rt != nil {
+			return &mSym{name: "reflect.TypeOf(" + v.rt.String() + ")", nonNil: true, rt: v.rt}, true
+		}
+	case "Int", "Uint", "Float", "Bool", "String":
+		// the payload itself, for the kinds the accessor is defined on (a constant or a symbol of the model)
+		k := reflect.Kind(kind)
+		okKind := map[string]bool{"Int": k >= reflect.Int && k <= reflect.Int64, "Uint": k >= reflect.Uint && k <= reflect.Uintptr, "Float": k == reflect.Float32 || k == reflect.Float64, "Bool": k == reflect.Bool, "String": k == reflect.String}[method]
+		if okKind {
+			switch v.rv.(type) {
+			case int64, float64, bool, string, *mSym:
+				return v.rv, true
+			}
+		}
+	case "Len":
+		switch x := v.rv.(type) {
+		case string:
+			return int64(len(x)), true
+		case mSlice:
+			return int64(len(x.arr)), true
+		case mArray:
+			return int64(len(x)), true
+		case *mMap:
+			if x == nil {
+				return int64(0), true
+			}
+			return int64(len(x.keys)), true
+		case mNilT:
+			if reflect.Kind(kind) == reflect.Slice || reflect.Kind(kind) == reflect.Map {
+				return int64(0), true
+			}
+		}
+	case "IsNil":
+		switch reflect.Kind(kind) {
+		case reflect.Chan, reflect.Func, reflect.Interface, reflect.Map, reflect.Pointer, reflect.Slice, reflect.UnsafePointer:
+			switch x := v.rv.(type) {
+			case mNilT:
+				return true, true
+			case *mv:
+				return x == nil, true
+			case mSlice:
+				return x.arr == nil, true
+			case *mMap:
+				return x == nil, true
+			case *mClosure:
+				return x == nil, true
+			case *ssa.Function:
+				return x == nil, true
+			case *mSym:
+				if x.nonNil {
+					return false, true
+				}
+			case mIface:
+				return false, true
+			}
+		default:
+			// as the reflect package does
+			m.throw(m.sym("reflect: call of reflect.Value.IsNil on "+reflect.Kind(kind).String()+" Value", nil), "reflect: call of reflect.Value.IsNil on %s Value", reflect.Kind(kind))
+		}
+	}
+	// outside the model: the run ends undecided - an invented result could be taken for the component's answer
+	m.abort("reflect.Value.%s on %s (kind %s) is outside the machine's model of package reflect", method, mRender(v.rv), reflect.Kind(kind))
+	return nil, false
 }
